@@ -82,7 +82,7 @@ def run_case(names, texts, lookups, le):
 
     def look(phase):
         nonlocal err
-        for q in lookups:
+        for q in (lookups if phase == 'before' else lookups + POST_LOOKUPS):
             w = tuple(gen.lw(q))
             try:
                 g = t.get(q)
@@ -120,7 +120,13 @@ def run_case(names, texts, lookups, le):
     if sorted(t.items()) != sorted(last.values()) and not err:
         err = 'a refused add changed the trie'
     for text in texts:
-        got = impl_iter(t, text)
+        try:
+            got = impl_iter(t, text)
+        except Exception as ex:   # noqa
+            if not err:
+                err = 'iter(%r) raised %s: %s' % (text, type(ex).__name__, ex)
+            obs.append([])
+            continue
         obs.append([[a, b, enc_str(s), [v]] for a, b, s, v in got])
         want = brute(names, text)
         if got != want and not err:
@@ -146,17 +152,22 @@ def run_case(names, texts, lookups, le):
     return err, obs
 
 
+# asked only once the matcher is finalised: names nobody stored, made of words that no stored name may have (a look-up is a
+# question: it leaves nothing behind for the scans that follow)
+POST_LOOKUPS = ['c', 'c a', 'zz', 'q zz', 'later gpl']
+
+
 def model_ops(names, texts, lookups):
     ops = [[0, enc_str(n), v] for n, v in names]
-    def look():
+    def look(qs):
         out = []
-        for q in lookups:
+        for q in qs:
             out += [[1, enc_str(q)], [2, enc_str(q)], [3, enc_str(q)]]
         out.append([4])
         return out
-    ops += look()
+    ops += look(lookups)
     ops.append([5])
-    ops += look()
+    ops += look(lookups + POST_LOOKUPS)
     ops.append([0, enc_str('zzz new'), 99])
     for t in texts:
         ops.append([6, enc_str(t)])
@@ -213,6 +224,7 @@ def run(rep, tier, seed):
     reqs, metas = [], []
     for s in sets:
         names = [(n, i + 1) for i, n in enumerate(s)]
+        # look-ups of stored names, of prefixes, and of a name nobody stored made of a word no stored name has (the texts hold it)
         lookups = [s[0], s[0].upper().replace(' ', '  '), 'a', 'b a b', '']
         reqs.append((12, model_ops(names, texts, lookups)))
         metas.append((names, texts, lookups))
